@@ -288,7 +288,7 @@ var opTable = func() []string {
 		op string
 		n  int
 	}{
-		{"begin", 20}, {"write_tx", 8}, {"put", 12}, {"del", 4}, {"get", 3}, {"scan", 2}, {"commit", 16}, {"rollback", 10},
+		{"begin", 19}, {"write_tx", 12}, {"put", 11}, {"del", 4}, {"get", 3}, {"scan", 2}, {"commit", 16}, {"rollback", 10},
 		{"abandon", 8}, {"bad_get", 4}, {"cleanup_stale", 5}, {"cleanup_conn", 6}, {"shutdown", 1},
 	}
 	var out []string
@@ -326,7 +326,7 @@ func genStep(t *rapid.T) Step {
 		s.K = rapid.SampledFrom(keyTable).Draw(t, "k")
 		s.V = fmt.Sprintf("w%d", rapid.IntRange(0, 999).Draw(t, "v"))
 		s.Keep = rapid.IntRange(0, 9).Draw(t, "keep") < 3
-		s.Fault = rapid.IntRange(0, 9).Draw(t, "fault") < 3
+		s.Fault = rapid.IntRange(0, 9).Draw(t, "fault") < 5
 	case "put":
 		s.K = rapid.SampledFrom(keyTable).Draw(t, "k")
 		s.V = fmt.Sprintf("v%d", rapid.IntRange(0, 999).Draw(t, "v"))
@@ -340,7 +340,7 @@ func genStep(t *rapid.T) Step {
 		s.Keep = rapid.IntRange(0, 9).Draw(t, "keep") < 3
 		s.Again = rapid.IntRange(0, 9).Draw(t, "again") < 4
 		if s.Op == "commit" {
-			s.Fault = rapid.IntRange(0, 9).Draw(t, "fault") < 3
+			s.Fault = rapid.IntRange(0, 9).Draw(t, "fault") < 5
 		}
 	case "cleanup_conn":
 		s.Peer = rapid.IntRange(0, 9).Draw(t, "peer") < 8
@@ -361,7 +361,7 @@ func genCase(t *rapid.T) Case {
 		Clients: rapid.IntRange(2, 5).Draw(t, "clients"),
 		End:     rapid.SampledFrom([]string{"rollback", "conn", "stale", "shutdown"}).Draw(t, "end"),
 	}
-	if rapid.Bool().Draw(t, "wrapped_backend") {
+	if rapid.IntRange(0, 2).Draw(t, "wrapped_backend") > 0 {
 		c.Backend = "wrapped"
 	}
 	if c.Mode != "long" {
